@@ -79,6 +79,10 @@ def run(sid, tier='quick'):
         print('refusing: /repo has local modifications:\n' + out)
         return 2
     rec = {'tier': tier, 'at': time.strftime('%Y-%m-%d %H:%M:%S')}
+    # the check rewrites evidence/<prop>.json; a run against a seeded change must not replace the
+    # evidence of the unchanged tree
+    ev = os.path.join(VERIF, 'evidence', prop + '.json')
+    saved = open(ev).read() if os.path.exists(ev) else None
     try:
         rc, out = sh('git apply %s' % os.path.join(d, 'patch.diff'), cwd=REPO)
         if rc != 0:
@@ -91,6 +95,8 @@ def run(sid, tier='quick'):
                         'detected': rc == 1})
     finally:
         sh('git checkout -- .', cwd=REPO)
+        if saved is not None:
+            open(ev, 'w').write(saved)
     meta.setdefault('check_runs', []).append(rec)
     json.dump(meta, open(os.path.join(d, 'meta.json'), 'w'), indent=1)
     print(json.dumps(rec, indent=1))
